@@ -154,9 +154,16 @@ def run_check(pid, tier, seed):
         if tier == 'thorough' and os.environ.get('VERIF_LEANCHECKER', '1') != '0':
             # independent re-check of the compiled modules this property depends on (Props.Cxx and every project module it imports)
             mods = import_closure(f'Props.{pid}')
-            p = subprocess.run(['lake', 'env', 'leanchecker'] + mods, cwd=LEAN_DIR, capture_output=True, text=True)
-            if p.returncode != 0:
-                broken.append({'kind': 'proof', 'what': 'leanchecker rejected a compiled module', 'detail': (p.stdout + p.stderr)[-800:]})
+            # one module per leanchecker process (a single process over the whole closure needs tens of GB), four at a time
+            from concurrent.futures import ThreadPoolExecutor
+            def lc(m):
+                p = subprocess.run(['lake', 'env', 'leanchecker', m], cwd=LEAN_DIR, capture_output=True, text=True)
+                return m, p.returncode, (p.stdout + p.stderr)[-400:]
+            with ThreadPoolExecutor(max_workers=4) as ex:
+                res = list(ex.map(lc, mods))
+            bad_lc = [(m, out) for m, rc, out in res if rc != 0]
+            if bad_lc:
+                broken.append({'kind': 'proof', 'what': f'leanchecker rejected compiled module(s) {[m for m, _ in bad_lc]}', 'detail': bad_lc[0][1]})
             else:
                 notes.append(f'leanchecker re-checked {len(mods)} compiled modules: ok')
     required = set(getattr(mod, 'REQUIRED_THEOREMS', []))
